@@ -21,6 +21,17 @@ CHECKS = {
             'available to rebuild them). Lines on which elimination without pivoting has a (near-)zero pivot get a proportionally wider tolerance '
             'and are counted in evidence. delj-on references are float (exp); quick tier thins the parameter lattice (cap reported).',
             'DESIGN.md §3 C02'),
+    'C05': ('model_checking',
+            'operator extraction on every unit density for each sampling path x sample sizes x grids, against exact Fraction integrals of binomial probabilities times piecewise-linear basis functions and exact trapezoid sums',
+            'For the semi-analytic path (1-5 D, n=1..40 in 1-D, {1,2,5,40}^2, {1,2,5}^3, {1,2,3}^4,5), the direct path with and without '
+            'heterozygote ascertainment (1-4 D, different grids per axis), admix_props (identity and every row-stochastic matrix on the '
+            'step-1/4 lattice) and the inbreeding path (F x ploidy lattice, 1-3 D) the sampling operator is extracted from the real from_phi '
+            'by applying it to every unit density and compared with the exact rational operator; totals equal the trapezoid mass, '
+            'sample-then-project equals sample, marginalise-before equals marginalise-after, and sampling probabilities sum to one, on every unit '
+            'density; grids overshooting [0,1] by 1e-16 included.',
+            'Sum-to-one tolerance for inbreeding is conditioning-aware (betaln cancellation grows like eps/F, measured); multi-D semi-analytic '
+            'paths require one grid for all axes; 5-D has only the semi-analytic path and inbreeding only 1-3 D in the implementation.',
+            'DESIGN.md §3 C05'),
     'C06': ('model_checking',
             'explicit-state BFS from every unit density over split/admix/pulse/remove/filter/reorder with proportions on simplex lattices, stepping an exact Fraction density alongside the real PhiManip call',
             'From every unit density of 1-5 dimensional arrays a breadth-first search applies every constructor, each of the 17 in-place pulse '
